@@ -417,6 +417,48 @@ def model_trace_to_calls(tr, term):
 # ======================================================================================================
 # units
 # ======================================================================================================
+def _lost_wrappers(spec, obj):
+    """{kind: (in spec, in object)} for the wrapper kinds of which the object has FEWER nodes than the construction spec."""
+    import collections
+
+    import equinox as eqx
+    import jax
+    from flowjax import wrappers as W
+
+    def cnt(s_, acc):
+        if isinstance(s_, dict):
+            if "vmap" in s_:  # the variants are stacked into ONE vmapped wrapper tree: count one of them
+                v0 = s_["variants"]
+                while isinstance(v0, list):
+                    v0 = v0[0]
+                return cnt(v0, acc)
+            if "w" in s_:
+                acc[s_["w"]] += 1
+            for k_, v in s_.items():
+                if k_ != "bij":  # arguments of a bijection's own constructor are consumed by it
+                    cnt(v, acc)
+        elif isinstance(s_, list):
+            for v in s_:
+                cnt(v, acc)
+        return acc
+
+    def count_obj(o, cls):
+        n = 0
+        for leaf in jax.tree_util.tree_leaves(o, is_leaf=lambda x: isinstance(x, W.AbstractUnwrappable)):
+            if isinstance(leaf, W.AbstractUnwrappable):
+                n += isinstance(leaf, cls)
+                n += sum(count_obj(f, cls) for f in eqx.tree_flatten_one_level(leaf)[0])
+        return n
+
+    want = cnt(spec, collections.Counter())
+    out = {}
+    for kind, cls in (("NT", W.NonTrainable), ("WH", W.Where), ("LA", W.Lambda)):
+        have = count_obj(obj, cls)
+        if have < want[kind]:
+            out[kind] = (want[kind], have)
+    return out
+
+
 def unit_unwrap(ctx, specs, uname, what, vmapped=False):
     s = _setup()
     u = ctx.unit(uname, what)
@@ -430,6 +472,13 @@ def unit_unwrap(ctx, specs, uname, what, vmapped=False):
             continue
         built.append((spec, obj, sx))
         reqs += ["unwrap " + sx, "trace " + sx]
+        # a wrapper handed to a constructor must still be a node of the constructed pytree (the serialiser reads the structure from
+        # the OBJECT, so a constructor that applies a nested wrapper once and discards it would go unnoticed: seeded change C12c)
+        lost = _lost_wrappers(spec, obj)
+        if lost:
+            ctx.violation(sig=f"{uname}:constructor-dropped-wrapper", what=f"a wrapper passed to a constructor is missing from the constructed pytree ({lost}): "
+                          f"a NonTrainable leaf is then trainable / a Where mask is not re-applied after its operands change",
+                          case=dict(unit=uname, spec=spec), found_input=True, unit=u.name, broken="wrapper nodes survive construction (frozen leaves stay frozen)")
     outs = ctx.model(reqs)
     for i, (spec, obj, sx) in enumerate(built):
         _gc(i, 60)
